@@ -2,8 +2,8 @@
 Model of the U2F side: passkey-authenticator/src/u2f.rs (`U2fApi::{register, authenticate}`),
 passkey-types/src/u2f/{register,authenticate,version,commands}.rs (response encodings, request framing)
 and `Passkey::wrap_u2f_registration_request`.  Signing is outside the model: a response names what is
-signed and with which key (`Signed`).  Panics of the real parser (slice indices out of range,
-`unreachable!`) are results of the model.
+signed and with which key (`Signed`).  `Parsed.panic` is kept as a possible result of the model type so that a parser that can panic is
+expressible; the parser as repaired never produces it (Props/C15).
 -/
 import PasskeyVerif.Model.Authenticator
 import PasskeyVerif.Base.Base64
@@ -91,30 +91,31 @@ def swInsNotSupported : Nat := 0x6D00
 
 def ofBe32 (b : Bytes) : Nat := b.foldl (fun acc x => acc * 256 + x.toNat) 0
 
-/-- `AuthenticationRequest::try_from(payload, p1)` -/
+/-- `AuthenticationRequest::try_from(payload, p1)` for a control byte of the specification: any slice that
+is too short is the slice-conversion error, which the framing maps to "wrong length" -/
 def parseAuthPayload (payload : Bytes) (p1 : UInt8) : Parsed :=
-  if payload.length < 65 then .panic                           -- split_at(32) / split_at(32) / split_at(1)
+  if payload.length < 65 then .err swWrongLength
   else
     let hl := (payload.getD 64 0).toNat
-    if payload.length - 65 < hl then .panic                    -- data[..handle_len]
-    else if !(p1 == 0x07 || p1 == 0x03 || p1 == 0x08) then .panic   -- `unreachable!` in From<u8> for AuthenticationParameter
+    if payload.length - 65 < hl then .err swWrongLength
     else .authenticate p1 (payload.take 32) ((payload.drop 32).take 32) ((payload.drop 65).take hl)
 
 def parseRequest (v : Bytes) : Parsed :=
-  if v.length < 6 then .err swWrongLength
+  if v.length < 7 then .err swWrongLength                      -- header and the extended length bytes
   else if v.getD 0 0 != 0 then .err swWrongData
-  else if v.length < 7 then .panic                             -- value[3..7]
   else
     let dataLen := ofBe32 ((v.drop 3).take 4)
-    if v.length < 7 + dataLen then .panic                      -- value[7..7 + data_len]
+    if v.length < 7 + dataLen then .err swWrongLength          -- declared length beyond the frame
     else
       let payload := (v.drop 7).take dataLen
       let ins := v.getD 1 0
+      let p1 := v.getD 2 0
       if ins == 0x01 then
-        (if payload.length < 32 then .panic                    -- data[..32]
-         else if payload.length != 64 then .err swWrongLength
+        (if payload.length != 64 then .err swWrongLength
          else .register (payload.take 32) (payload.drop 32))
-      else if ins == 0x02 then parseAuthPayload payload (v.getD 2 0)
+      else if ins == 0x02 then
+        (if !(p1 == 0x07 || p1 == 0x03 || p1 == 0x08) then .err swWrongData   -- only the specification's control bytes
+         else parseAuthPayload payload p1)
       else if ins == 0x03 then .version
       else .err swInsNotSupported
 
